@@ -8,8 +8,8 @@ import time
 
 from .frontend import AnalysisBroken, VERIF, REPO
 
-EVIDENCE_DIR = os.path.join(VERIF, 'evidence')
-REPORT_DIR = os.path.join(VERIF, 'reports')
+EVIDENCE_DIR = os.environ.get('VERIF_EVIDENCE_DIR') or os.path.join(VERIF, 'evidence')
+REPORT_DIR = os.environ.get('VERIF_REPORT_DIR') or os.path.join(VERIF, 'reports')
 KNOWN = os.path.join(VERIF, 'known_findings.json')
 
 
